@@ -41,7 +41,7 @@ var goTypeOf = map[yang.TypeKind]reflect.Type{
 	yang.Ystring: reflect.TypeOf(""), yang.Ybool: reflect.TypeOf(false), yang.Ydecimal64: reflect.TypeOf(float64(0)),
 }
 
-var stringPool = []string{"a", "eth0/1", "x y", "a]b[c", "k=v", "ü-ß", `back\slash`, "0", "-", "Ethernet1/2.3", "{x}", "q\"uote", "tab\there",
+var stringPool = []string{"a", "", "eth0/1", "x y", "a]b[c", "k=v", "ü-ß", `back\slash`, "0", "-", "Ethernet1/2.3", "{x}", "q\"uote", "tab\there",
 	"very-long-0123456789012345678901234567890123456789",
 	// values that match commonly used patterns
 	"abc", "x", "hello", "10.0.0.1", "192.168.1.20", "Ab-1", "Z", "up", "down-12", "65000:100", "1:2", "xa", "f", "abc:12"}
